@@ -17,9 +17,13 @@ META = {"engine": "A floscript", "technique": "trace monitor: guard evaluated on
 
 FEATS = [
     dict(p_let=0.6, nframes=(3, 7), ngo=(1, 2), p_uncond_go=0.15, nplan=(3, 8), ticks=(10, 20), benter_all=True, p_stop_bid_mid=0.2),
-    dict(p_let=0.5, nframes=(3, 6), ngo=(1, 2), p_aux=0.5, naux=(1, 3), p_shared_aux=0.8, nplan=(3, 8), ticks=(10, 20), benter_all=True),
+    dict(p_let=0.5, nframes=(3, 6), ngo=(1, 2), p_aux=0.5, naux=(1, 3), p_shared_aux=0.8, p_aux_inherit=0.3, nplan=(3, 8), ticks=(10, 20), benter_all=True),
     dict(p_let=0.6, nframes=(2, 5), ngo=(1, 2), nslaves=(1, 2), p_fiat=0.6, nplan=(3, 8), ticks=(10, 18), benter_all=True,
          p_inactive=0.2, p_bids=0.2),
+    # an original aux named by a frame and by frames below it, many unguarded transitions between branches: the aux-ownership
+    # rule decides most attempts (the owner may be a common frame that stays entered across the transition)
+    dict(p_let=0.2, nframes=(4, 7), ngo=(2, 3), p_uncond_go=0.4, p_aux=0.7, naux=(1, 2), p_shared_aux=0.9, p_aux_inherit=0.6,
+         nplan=(3, 8), ticks=(10, 20), benter_all=True),
 ]
 
 
@@ -74,7 +78,7 @@ def worker(ctx, job):
 
 
 def run(ctx):
-    n = ctx.pick(400, 24000)
+    n = ctx.pick(640, 24000)
     items = [(ctx.rng.randrange(1 << 30), i % gen.nfeats(FEATS, ctx)) for i in range(n)]
     from vf.checks import c20
     opts = c20.need_opts()
